@@ -4,11 +4,11 @@ from . import ipgen, linegen, textgen
 from .textcommon import TEXT_MODEL_DEPS as MODEL_DEPS, TEXT_TRUSTED as TRUSTED_BASE, TEXT_ASSUMPTIONS as ASSUMPTIONS  # noqa
 
 COQ_DEPS = ["lib/Str.v", "lib/Rx.v", "lib/RxFacts.v", "lib/RxSub.v", "gen/G_rx.v", "gen/G_text_consts.v", "model/TextModel.v", "model/JunModel.v", "model/JunProofs.v", "model/TextProofs.v", "lib/RxComplete.v", "lib/RxGroups.v", "gen/G_fn_sir.v", "model/EncProofs.v", "model/TotalProofs.v", "model/TotalIp.v", "model/TotalWords.v", "model/TotalAs.v", "model/TotalLine.v", "model/SortProofs.v", "model/AsModel.v", "lib/IpText.v", "model/IpModel.v", "model/IpModelFacts.v", "lib/MemoProofs.v"]
-RULE = ("every corpus template x awkward secrets (backslashes, regex metacharacters, malformed $1$/$9$/$6$, near-IPv6 text, long quote/bracket runs, non-ASCII, control characters), random mutations of those lines, "
+RULE = ("every corpus template x awkward secrets (backslashes, regex metacharacters, malformed $1$/$9$/$6$ (wrong alphabet incl. non-ASCII digits and letters, truncated), near-IPv6 text, long quote/bracket runs, non-ASCII, control characters), random mutations of those lines, "
         "near-address tokens; all five features on and single-feature subsets; salts with every kind of first character (alphabet, outside, empty, non-ASCII); any exception on the implementation is a violation; "
         "non-trivial = a distinct hostile line")
 
-AWKWARD = ["RemoveMe", "12345", "abcdef12", "122A00190102180D3C2E", "$1$wtHI$0rN7R8PKwC30AsCGA77vy.", "$6$RMxgK5ALGIf.nWEC$tHuKCyfNtJ", "$9$HqfQ1IcrK8n/t0IcvM24aZGi6/t", "$9$ab", "$9$", "$9$Qnet", "$9$abcd!",
+AWKWARD = ["RemoveMe", "12345", "abcdef12", "122A00190102180D3C2E", "$1$wtHI$0rN7R8PKwC30AsCGA77vy.", "$6$RMxgK5ALGIf.nWEC$tHuKCyfNtJ", "$9$HqfQ1IcrK8n/t0IcvM24aZGi6/t", "$9$ab", "$9$", "$9$Qnet", "$9$abcd!", "$9$ab\u0663d", "$9$\u0663\u0663\u0663\u0663", "$9$HqfQ1Ic\u0663K8n/t0IcvM24aZGi6/t", "$9$\uff11\uff12\uff13\uff14\uff15", "$9$ab\u00e9d", "$9$\u00b2\u00b5ab",
            "$1$abcdefghi$xx", "$1$a!b$xx", "$1$$x", "$1$a$", "$6$", "a\\b", "a\\q", "a\\1", "a\\g<0>", "\\g<prefix>", "(x", "[x", "x)", "*x", "+", "?", "{", "}", "|", "^$", "\\", "\"q\"", "'q'", "é", "٣٣",
            "\x00", "\u2028", "fe80:%x", "fe80:::1%x", "::ffff:1.2.3.4", "1.2.3.4", "255.255.255.0", "\"" * 60, "[" * 60, "{[\"'" * 30, "netconanRemoved0", "0" * 40, "9" * 60, "ff" * 40, "00", "1" + "0" * 30 + "1"]
 SPECIALS = list("\\$^*+?()[]{}|.\"'`;:,<>%&#@!~ \t\x0b\x0c\x1c\x85\xa0") + ["\\b", "\\1", "\\g<prefix>", "$9$", "$1$", "$6$", "::", "fe80:%", "1.2.3.4", "é", "٣", "𝟙", "\ud7ff", "\U0010ffff"]
